@@ -754,7 +754,11 @@ def to_hashable(  # noqa: C901, PLR0911, PLR0912
 
     # Handle numpy arrays
     if "numpy" in sys.modules and isinstance(obj, sys.modules["numpy"].ndarray):
-        return (m, tp, (obj.shape, obj.dtype.str, tuple(obj.flatten())))
+        if obj.dtype.hasobject:  # the elements might be unhashable themselves
+            data = _hashable_iterable(obj.flatten(), fallback_to_pickle)
+        else:
+            data = tuple(obj.flatten())
+        return (m, tp, (obj.shape, obj.dtype.str, data))
 
     # Handle pandas Series and DataFrames
     if "pandas" in sys.modules:
